@@ -1,5 +1,5 @@
 """C19 — the STL-free containers behave like their std counterparts over any history."""
-import itertools, re
+import itertools, re, zlib
 from collections import Counter
 
 ID = "C19"
@@ -13,9 +13,10 @@ CLAIM = dict(
           "its block, no block is freed twice, the two objects own distinct blocks that are exactly the live ones, and after "
           "destroying both every block allocated has been freed exactly once; self-assignment is the identity on object and heap; "
           "operations on one object never touch the other. utl::static_vector<Cap> — the same refinement against a capacity-bounded "
-          "list (sized constructions within capacity), push_back / resize beyond the capacity leave the object unchanged. REFUTED "
+          "list for every history (a sized construction beyond the capacity is refused and leaves an empty object — repaired here), "
+          "size() <= capacity always, push_back / resize beyond the capacity leave the object unchanged. REFUTED "
           "(known findings): cells exposed by a growing resize (and by utl::vector's sized constructor) are not value-initialised; "
-          "static_vector(n) accepts n > Capacity; maybe / either of a non-trivial type assign into raw storage and never run the "
+          "maybe / either of a non-trivial type assign into raw storage and never run the "
           "destructor; small_vector over the utl types leaks and assigns into raw storage once it leaves its static arm. "
           "Tied to the C++ by exhaustive histories over a 13-symbol alphabet plus seeded long histories, each also run on "
           "std::vector / std::optional / std::variant in the same process, with the library's malloc/free redirected to a counting "
@@ -31,10 +32,10 @@ RULE = ("utl::vector<int>, utl::static_vector<int,4>, small_vector<int,4> (utl e
         "assignment and a later mutation; distinct = distinct lines")
 THEOREM_STATUS = {
     "proved": ["C19_vector_refines_std_on_written_cells", "C19_vector_memory_and_allocation_balance",
-               "C19_static_vector_refines_bounded_std_on_domain", "C19_static_vector_refuses_beyond_capacity",
+               "C19_static_vector_refines_bounded_std", "C19_static_vector_refuses_beyond_capacity",
                "C19_self_assignment_harmless", "C19_copies_independent"],
     "partial": [],
-    "refuted": ["C19_value_initialisation_refuted", "C19_static_vector_ctor_over_capacity_refuted", "C19_nontrivial_maybe_refuted"]}
+    "refuted": ["C19_value_initialisation_refuted", "C19_nontrivial_maybe_refuted"]}
 ASSUMPTIONS = ["malloc never fails (every constructor gets a block; malloc(0) is a block of length 0)",
                "the heap is abstract: block identity, length, alloc/free events; real out-of-bounds / lifetime errors are observed "
                "by ASan and the counting allocator on the explored histories, not proved absent (partial for real memory safety)",
@@ -71,7 +72,7 @@ def gen_cases(rng, tier):
         add("exhaustive", kind)
         for n in range(1, maxlen + 1):
             for syms in itertools.product(seq_alpha, repeat=n):
-                if n == maxlen and kind == "small" and tier == "quick" and (hash(syms) % 3): continue
+                if n == maxlen and kind == "small" and tier == "quick" and (zlib.crc32(" ".join(syms).encode()) % 3): continue
                 add("exhaustive", hist(kind, syms))
         if tier == "thorough":
             for _ in range(60000): add("sampled-6", hist(kind, [rng.choice(SEQ_ALPHA) for _ in range(6)]))
@@ -173,8 +174,6 @@ def classify(line, impl, spec, model):
         if d and d["contents"] == spec.strip() and d.get("std") == spec.strip() and re.search(r"badassign=[1-9]| live=[1-9]", d.get("heap", "")):
             return "nontrivial-maybe-either-raw-assign-no-destructor"
         return None
-    if kind == "svec" and any(t[0] == "c" and int(t[1:]) > CAP for t in hist):
-        return "static_vector-ctor-over-capacity"
     if kind == "small" and enters_dynamic_arm(hist):
         return "small_vector-utl-dynamic-arm-leak-raw-assign"
     if kind in ("vec", "svec", "small") and "|" in impl:
